@@ -146,6 +146,35 @@ func clMarkCAS(c *Ctx) {
 	if len(p.CallSites(sd, dcas)) != 1 || len(p.CallSites(hd, dcas)) != 1 {
 		undecidedf("softDelete/helpDelete: expected exactly one CAS each")
 	}
+	clLinkCASWhoMay(c)
+}
+
+// who may CAS a link: Insert4 (publish/index), softDelete (mark), helpDelete
+// (unlink + accounting). An unlink anywhere else bypasses the statistics and
+// the winner-only protocol.
+func clLinkCASWhoMay(c *Ctx) {
+	p := c.P
+	dcas := p.Func("skiplist", "Node", "dcasNext")
+	allowed := []*ssa.Function{p.Func("skiplist", "Skiplist", "Insert4"), p.Func("skiplist", "Skiplist", "softDelete"), p.Func("skiplist", "Skiplist", "helpDelete")}
+	n := 0
+	for _, s := range p.AllCallSites(dcas) {
+		g := s.Parent()
+		if g.Package() == nil || !strings.HasPrefix(g.Package().Pkg.Path(), modPath) {
+			continue
+		}
+		n++
+		ok := false
+		for _, a := range allowed {
+			if p.sameRoot(g, a) {
+				ok = true
+			}
+		}
+		c.Check(ok, g, s, "link CAS (dcasNext) only in Insert4, softDelete and helpDelete",
+			"a link is swung outside the three protocol functions: a node unlinked there is not subtracted from node count / per-level distribution / MemoryInUse (helpDelete accounts for the node it unlinks), and no later search meets it to do so")
+	}
+	if n < 3 {
+		undecidedf("dcasNext: only %d call sites found", n)
+	}
 }
 
 // ---------------------------------------------------------------------------
